@@ -237,7 +237,7 @@ def parse_expr(s):
 
 
 KEYWORDS = ('spec', 'define', 'axiom', 'lemma', 'func', 'requires', 'ensures', 'assigns', 'allocates',
-            'loop', 'invariant', 'decreases', 'flag', 'ghostvar', 'call', 'import', 'at', 'property', 'end', 'step', 'send', 'guarded', 'uses', 'recv')
+            'loop', 'invariant', 'decreases', 'flag', 'ghostvar', 'call', 'import', 'at', 'property', 'end', 'step', 'send', 'guarded', 'uses', 'recv', 'return')
 
 
 def _label(s):
@@ -340,6 +340,10 @@ def parse_contract_text(text, fname='?'):
                 lab, r = _label(m.group(2))
                 cur.setdefault('sends', []).append((m.group(1), lab, parse_expr(r), r))
                 curloop = None
+            elif kw == 'return':
+                lab, r = _label(rest)
+                cur.setdefault('returns', []).append((lab, parse_expr(r), r))
+                curloop = None
             elif kw == 'uses':
                 cur.setdefault('uses', []).extend(x.strip() for x in rest.split(',') if x.strip())
             elif kw == 'recv':
@@ -402,6 +406,19 @@ def _split_top(s):
     return out
 
 
+TREEOP_ASSIGNS = ['allfields("tree.Node")', 'allfields("tree.Edge")', 'allfields("tree.Tree")', 'elems("*tree.Node")', 'elems("*tree.Edge")',
+                  'elems("string")', 'mapof("map[string]*tree.Node")', 'ghost(bs_bits)', 'ghost(bs_len)']
+TREEOP_ALLOCATES = ['tree.Node', 'tree.Edge', 'tree.Tree', '[]*tree.Node', '[]*tree.Edge', '[]string', 'map[string]*tree.Node', 'bitset.BitSet', 'iface']
+
+
+def expand_flags(c):
+    """flag treeop: a thin contract of a tree operation - may rewrite any field of any node / branch / tree object,
+    neighbour and comment arrays and the tip index, and may allocate such objects; nothing else"""
+    if 'treeop' in c['flags']:
+        c['assigns'] = (c['assigns'] or []) + [(parse_expr(x), x) for x in TREEOP_ASSIGNS]
+        c['allocates'] = list(c['allocates']) + [x for x in TREEOP_ALLOCATES if x not in c['allocates']]
+
+
 def merge_contracts(cs):
     out = {'specs': {}, 'defines': {}, 'axioms': [], 'lemmas': [], 'funcs': {}}
     for c in cs:
@@ -413,5 +430,6 @@ def merge_contracts(cs):
             if k in out['funcs']:
                 raise SpecError('duplicate contract for ' + k)
             v['file'] = c.get('file')
+            expand_flags(v)
             out['funcs'][k] = v
     return out
